@@ -45,11 +45,17 @@ Definition tji (u o : nat) : bool :=
   match to_json_include f1 f2 f3 attr_ent2 attr_rev2 (fun _ => false) obj_ent2 (rules_of t) (groups_of u) (roles_of u) labels_of related2 o with
   | Some _ => true | None => false end.
 
+Definition sche (u e : nat) : bool :=
+  schema_entity f1 f2 f3 attr_ent2 attr_rev2 (fun _ => false) obj_ent2 (rules_of t) (groups_of u) (roles_of u) labels_of e.
+Definition scha (u a : nat) : bool :=
+  schema_attr f1 f2 f3 attr_ent2 attr_rev2 (fun _ => false) obj_ent2 (rules_of t) (groups_of u) (roles_of u) labels_of a.
+
 (* ... to_json of single objects; to_json with include when everything is loaded; the same in a fresh session (the model does not
    distinguish the last two: the answer must not depend on what happens to be loaded) *)
 Definition user_rows (u : nat) : list bool :=
   map (hp u 0) targets ++ map (hp u 1) targets ++ map (cv u) targets ++ map (tj u) [0; 1; 2; 3]
-  ++ map (tji u) [0; 1; 2; 3] ++ map (tji u) [0; 1; 2; 3].
+  ++ map (tji u) [0; 1; 2; 3] ++ map (tji u) [0; 1; 2; 3]
+  ++ map (sche u) [0; 1] ++ map (scha u) [0; 1; 2; 3].
 Definition table : list bool := user_rows 0 ++ user_rows 1 ++ user_rows 2.
 End Tab.
 
@@ -95,3 +101,16 @@ Definition history_now (t : rtable) (g0 g1 : list nat) (r0 r1 : bool) (h : list 
   history rev_loop_iterates_reverse_rules obj_exclusion_tests_entity missing_reverse_rules_returns_false
           attr_ent2 attr_rev2 (fun _ => false) obj_ent2 (rules_of t) (groups_seq g0 g1) (roles_seq r0 r1) (fun _ o => labels_of o)
           provider_caches_cleared_on_commit provider_caches_cleared_on_rollback (mkcaches None [] []) h.
+
+(* the inheritance universe of the correspondence run: entities 0 = Base, 1 = Sub(Base), 2 = Other; attributes 0 = Base.name,
+   1 = Base.secret (hidden=True), 2 = Other.title; objects 0 : Base, 1 : Sub, 2 : Other; users as above; no roles / labels *)
+Definition subs3 (e : nat) : list nat := match e with 0 => [1] | _ => [] end.
+Definition attr_ent3 (a : nat) : nat := match a with 2 => 2 | _ => 0 end.
+Definition hidden3 (a : nat) : bool := a =? 1.
+Definition obj_ent3 (o : nat) : nat := o.
+Definition targets3 : list target := [TEntity 0; TEntity 1; TEntity 2; TAttr 0; TAttr 1; TAttr 2; TObj 0; TObj 1; TObj 2].
+Definition inherit_table (ds : list decl) : list bool :=
+  flat_map (fun u => map (has_perm rev_loop_iterates_reverse_rules obj_exclusion_tests_entity missing_reverse_rules_returns_false
+                            attr_ent3 (fun _ => None) hidden3 obj_ent3 (rules_of_decls subs3 ds) (groups_of u) (fun _ => []) (fun _ => []) 0) targets3)
+           [0; 2].
+Definition D (ctx : list nat) (g xe xa : list nat) : decl := mkdecl ctx [0] (mkrule g [] [] xe xa).
